@@ -247,7 +247,7 @@ func (r *connRun) stabilise() {
 	}
 	last := snap()
 	quiet := 0
-	for i := 0; i < 4000 && quiet < 4; i++ {
+	for i := 0; i < 4000 && quiet < 6; i++ {
 		time.Sleep(500 * time.Microsecond)
 		if s := snap(); s == last {
 			quiet++
